@@ -179,8 +179,8 @@ CORPUS = [
 def run(ctx):
     from pyamg import strength
     thetas_q = [0.0, 0.25, 0.5, 0.75, 1.0]
-    nq = 60 if not ctx.thorough else 600
-    nf = 60 if not ctx.thorough else 600
+    nq = 150 if not ctx.thorough else 600
+    nf = 150 if not ctx.thorough else 600
     if ctx.search:
         nq, nf = 400, 400
     qmats = [gen.csr_from_rows(len(c['rows']), c['rows']) for c in CORPUS]
